@@ -9,6 +9,11 @@ CLAIMED = {
         "technique": "Coq proof over Q of a Num-generic model + bit-exact Flocq/vm_compute correspondence with the Rust code",
     },
 }
+CLAIMED["C06"] = {
+    "text": "Coq theorems (closed under the global context) over the exact rational instance of a statement-by-statement model of kira::Parameter / Tween / StartTime: the tween law for every partition of time into updates, every easing and start time (value = start + (target-start)*ease(elapsed/duration) until complete, identically the target from then on), partition independence, range, pending-start, zero duration, delayed count-down, continuity across updates, retargeting from the current value, modulator follow/hold. The binary64 / binary32 (Flocq) instance of the same Gallina terms is compared bit-for-bit with the real Parameter<f64>/Parameter<Decibels> on generated set/update histories (incl. Duration::from_secs_f64 rounding) every run; law monitors run on the implementation.",
+    "design_ref": "DESIGN.md section 5 C06",
+    "technique": "Coq proof (induction over update lists) on a Num-generic model + bit-exact Flocq/vm_compute correspondence",
+}
 REASON_WIP = "check not built yet in this session (work in progress; planned per DESIGN.md section 5)"
 
 def main():
